@@ -273,10 +273,15 @@ impl Process {
     }
 
     #[instrument()]
+    /// the client actions and the scheduled tasks of one process take turns
+    pub(crate) fn lock_actions(&self) -> std::sync::MutexGuard<'_, ()> {
+        self.sync.lock().unwrap_or_else(|e| e.into_inner())
+    }
+
     pub fn do_action(self: &Arc<Self>, action: &Action) -> Result<()> {
         // two client threads closing sibling acts both review the parent: each would find every child
         // finished and create the successor, so the actions of one process take turns
-        let _lock = self.sync.lock().unwrap_or_else(|e| e.into_inner());
+        let _lock = self.lock_actions();
         let mut action = action.clone();
         let task = self.task(&action.tid).ok_or(ActError::Action(format!(
             "cannot find task by '{}' tasks={:?}",
